@@ -104,6 +104,10 @@ func TestC06_Regress(t *testing.T) {
 	if d1.HasErrors() || !v1.ContainsMarked() {
 		regressFail(t, "C06", "expand-empty-marked-collection", "cat(\"a\", xs...) with xs an empty marked list gives %#v %v", v1, d1)
 	}
+	v2, d2 := evalSrc(t, `[for x in xs : x]`, ctx(cty.DynamicVal))
+	if d2.HasErrors() || !v2.ContainsMarked() {
+		regressFail(t, "C06", "for-over-marked-dynamic-unknown", "[for x in xs : x] with xs a marked unknown of unknown type gives %#v %v", v2, d2)
+	}
 }
 
 func TestC08_Regress(t *testing.T) {
